@@ -34,7 +34,7 @@ MANIFEST = {
     "technique": "Lean 4 proof (mod-2^32 homomorphism lemmas over Int bit operations, round/block/message induction, kernel-checked table equalities) "
                  "+ differential correspondence model vs implementation in child processes per configuration + hashlib/BIP37 oracles",
 }
-RULE = ("ops c19_rmd_py/c19_compress/c19_rol/c19_fi/c19_ripemd160/c19_hash160/c19_dsha256/c19_select/c19_murmur3/c19_bloom/c19_pyint and the "
+RULE = ("ops c19_rmd_py/c19_compress/c19_rol/c19_fi/c19_ripemd160/c19_hash160/c19_dsha256/c19_select/c19_murmur3/c19_bloom/c19_history/c19_pyint and the "
         "spec-validation ops sha256/dsha256/sha512/sha1/ripemd160_spec/hash160/hmac256/hmac512/murmur3_spec; boundary corpus (all lengths 0..300, "
         "padding boundaries 55/56/63/64/119/120/127/128, seeds 0, 2^32-1, 2^32, 2^64+1, negative; filter sizes 0..36001, 0..50 hash functions) + seeded "
         "random; distinct = distinct op line; trivial = spec-validation ops and c19_pyint (they do not touch pycoin)")
@@ -43,6 +43,8 @@ ASSUMPTIONS = [
     "RIPEMD-160 theorem: len(data) < 2^61 (beyond that struct.pack('<Q', 8*len) raises; proved as C19_ripemd160_py_overflow)",
     "murmur3 theorem: len(data) < 2^32 (the reference takes a 32-bit length; the code's `length & 0xFFFFFFFC` differs beyond it)",
     "PyCrypto's RIPEMD160Hash (not installed) is modelled by the standard function",
+    "histories: a memoryview handed to the pure-Python RIPEMD-160 raises TypeError (`data[k:] + pad`) where hashlib accepts it; modelled, and outside the "
+    "property's quantifier (byte strings), so the oracle does not judge those steps",
     "add_address is observed with Base58Check addresses built by pycoin's own encoder (Base58 itself belongs to C11)",
 ]
 TRUSTED = ["harness/props/c19_worker.py patches hashlib (never pycoin) to reach the selection branches of get_best_ripemd160 that this sandbox's OpenSSL does not take"]
@@ -269,6 +271,8 @@ def impl(op: str) -> str:
             return _ask(CFG[a[1]], "ripemd160 " + a[2])
         if k == "c19_hash160":
             return _ask(CFG[a[1]], "hash160 " + a[2])
+        if k == "c19_history":
+            return _ask(CFG[a[1]], "history " + a[2])
         if k == "c19_dsha256":
             d = EH.double_sha256(unhx(a[1]))
             return "ok %s %s" % (hx(bytes(d)), str(d))
@@ -318,6 +322,18 @@ def oracle(op: str, out: str):
         red = impl("c19_compress %s %s" % (",".join(str(v & M32) for v in st), a[2]))
         if not red.startswith("ok ") or [v & M32 for v in _ints(out[3:])] != [v & M32 for v in _ints(red[3:])]:
             return "compress is not a function of the chaining value mod 2^32"
+    elif k == "c19_history":
+        if not out.startswith("ok"):
+            return "history raised " + out
+        got = out[3:].split(";") if len(out) > 3 else []
+        exp = history_expected(a[1], a[2])
+        steps = [] if a[2] == "~" else a[2].split(",")
+        if len(got) != len(exp):
+            return "history printed %d answers for %d steps" % (len(got), len(exp))
+        for n, (g, e) in enumerate(zip(got, exp)):
+            if e is not None and g != (e or "-"):
+                return ("history, %s configuration: an answer is not the standard digest / BIP37 value of the contents the "
+                        "buffer has at that step (step %d, call `%s`: got %s, expected %s)" % (a[1], n, steps[n].split(":")[0], g[:40], (e or "-")[:40]))
     elif k == "c19_select":
         truthy = a[2] not in ("none", "=")
         if out == "ok native" and (truthy or a[1] == "0" or a[3] == "0"):
@@ -345,6 +361,107 @@ def oracle(op: str, out: str):
         if any(not ref_bip37_contains(exp, max(nh, 0), tw, b) for b, _ in its):
             return "an added element does not match the filter (BIP37 contains)"
     return None
+
+
+def history_expected(cfg: str, script: str):
+    """reference answers of a history: hashlib / reference murmur3 / BIP37 on the contents each buffer has at call time;
+    None where the property does not speak (a memoryview handed to code that needs a byte string, error steps)"""
+    data, kind = {}, {}
+    filt = None      # (size, nh, tweak, bytearray)
+    exp = []
+    for st in ([] if script == "~" else script.split(",")):
+        p = st.split(":")
+        k = p[0]
+        try:
+            if k in ("ny", "na", "nm"):
+                data[int(p[1])], kind[int(p[1])] = unhx(p[2]), k[1]
+                exp.append(".")
+            elif k == "s":
+                if int(p[1]) not in data:
+                    exp.append(None)
+                else:
+                    data[int(p[1])] = unhx(p[2])
+                    exp.append(".")
+            elif k in ("r", "h", "d", "c"):
+                i = int(p[1])
+                if i not in data or (kind[i] == "m" and (k == "c" or (k == "r" and cfg == "python"))):
+                    exp.append(None)
+                elif k in ("r", "c"):
+                    exp.append(hashlib_ripemd160(data[i]).hex())
+                elif k == "h":
+                    exp.append(hashlib_ripemd160(hashlib.sha256(data[i]).digest()).hex())
+                else:
+                    exp.append(hashlib.sha256(hashlib.sha256(data[i]).digest()).hexdigest())
+            elif k == "m":
+                exp.append(str(ref_murmur3(data[int(p[1])], int(p[2]) & M32)) if int(p[1]) in data else None)
+            elif k == "bn":
+                size, nh, tw = int(p[1]), int(p[2]), int(p[3])
+                if 0 < size <= 36000:
+                    filt = (size, max(nh, 0), tw, bytearray(size))
+                    exp.append(".")
+                else:
+                    exp.append(None)
+                    if size == 0:
+                        filt = (0, max(nh, 0), tw, bytearray(0))
+            elif k == "ba":
+                if filt is None or int(p[1]) not in data or filt[0] == 0:
+                    exp.append(None)
+                else:
+                    new = ref_bip37(filt[0], filt[1], filt[2], [data[int(p[1])]])
+                    for j, b in enumerate(new):
+                        filt[3][j] |= b
+                    exp.append(".")
+            elif k == "bf":
+                exp.append(None if filt is None else hx(bytes(filt[3])))
+            elif k == "bc":
+                if filt is None or int(p[1]) not in data or filt[0] == 0:
+                    exp.append(None)
+                else:
+                    exp.append("1" if ref_bip37_contains(bytes(filt[3]), filt[1], filt[2], data[int(p[1])]) else "0")
+            else:
+                exp.append(None)
+        except Exception:  # noqa: BLE001
+            exp.append(None)
+    return exp
+
+
+def gen_history(rng, cfg=None):
+    """a history that overwrites ONE buffer object in place between calls, and repeats equal contents in other objects"""
+    def rb(n):
+        return bytes(rng.randrange(256) for _ in range(n))
+    steps = []
+    nbuf = rng.randint(1, 3)
+    kinds = [rng.choice("yaaam") for _ in range(nbuf)]
+    pool = [rb(rng.choice([0, 1, 20, 32, 33, 55, 56, 63, 64, 65, rng.randrange(0, 130)])) for _ in range(rng.randint(1, 3))]
+    for i in range(nbuf):
+        steps.append("n%s:%d:%s" % (kinds[i], i, hx(rng.choice(pool))))
+    if rng.random() < 0.6:
+        steps.append("bn:%d:%d:%d" % (rng.choice([1, 2, 3, 8, 16, 64]), rng.randint(1, 6), rng.choice([0, 5, M32, 2 ** 32 + 3, -1])))
+    calls = ["r", "r", "r", "h", "d", "c", "m", "ba", "bc", "bf"]
+    for _ in range(rng.randint(3, 12)):
+        i = rng.randrange(nbuf)
+        c = rng.choice(calls)
+        if rng.random() < 0.45:
+            # overwrite in place: same length (a single changed byte), a pool value (equal contents, other object), or a new length
+            cur = None
+            for st in reversed(steps):
+                q = st.split(":")
+                if q[0] in ("s", "ny", "na", "nm") and int(q[1]) == i:
+                    cur = unhx(q[2])
+                    break
+            mode = rng.randrange(4)
+            if mode == 0 and cur:
+                j = rng.randrange(len(cur))
+                new = cur[:j] + bytes([cur[j] ^ (1 << rng.randrange(8))]) + cur[j + 1:]
+            elif mode == 1:
+                new = rng.choice(pool)
+            elif mode == 2 and cur is not None:
+                new = rb(len(cur))
+            else:
+                new = rb(rng.randrange(0, 130))
+            steps.append("s:%d:%s" % (i, hx(new)))
+        steps.append("m:%d:%d" % (i, rng.choice([0, 1, M32, 2 ** 32 + 1, -7])) if c == "m" else ("bf" if c == "bf" else "%s:%d" % (c, i)))
+    return "c19_history %s %s" % (cfg or rng.choice(["native", "python"]), ",".join(steps))
 
 
 SPEC_OPS = {"sha256", "dsha256", "sha512", "sha1", "ripemd160_spec", "hash160", "hmac256", "hmac512", "murmur3_spec", "c19_pyint"}
@@ -379,6 +496,9 @@ def neighbours(op, rng):
             for n in range(0, 9):
                 yield "c19_murmur3 %s %d" % (hx(rb(n)), s)
             yield "c19_murmur3 %s %d" % (hx(d), s)
+    elif k == "c19_history":
+        for _ in range(80):
+            yield gen_history(rng, a[1])
     elif k == "c19_bloom":
         for _ in range(60):
             yield "c19_bloom %d %d %d i:%s" % (rng.randint(1, 8), rng.randint(1, 6), rng.choice([0, 1, M32, 2 ** 32, -1]), hx(rb(rng.randint(0, 9))))
@@ -509,6 +629,22 @@ def gen(ctx, emit):
             for pc in "01":
                 for env in ("none", "=", "=31", "=30", "=" + b"yes".hex()):
                     emit("c19_select %s %s %s %s" % (alg, env, works, pc))
+
+    # ---- 2b. histories: the same buffer object overwritten in place between calls, equal contents in other objects,
+    # bytes / bytearray / memoryview, both configurations; the Bloom filter as a history object (add, read, add, …)
+    x, y = hx(rb(20)), hx(rb(20))
+    for cfg in ("native", "python"):
+        for kd in "yam":
+            for call in "rhdc":
+                emit("c19_history %s n%s:0:%s,%s:0,s:0:%s,%s:0,s:0:%s,%s:0" % (cfg, kd, x, call, y, call, x, call))
+            emit("c19_history %s n%s:0:%s,m:0:5,s:0:%s,m:0:5,m:0:4294967301" % (cfg, kd, x, y))
+            emit("c19_history %s n%s:0:%s,bn:8:3:0,ba:0,bf,bc:0,s:0:%s,bc:0,ba:0,bf,bc:0" % (cfg, kd, x, y))
+        emit("c19_history %s na:0:%s,ny:1:%s,r:0,r:1,s:0:%s,r:0,r:1,h:0,h:1" % (cfg, x, x, y))
+        emit("c19_history %s na:0:-,r:0,s:0:%s,r:0,s:0:-,r:0,c:0" % (cfg, hx(rb(64))))
+        emit("c19_history %s r:0,s:0:00,bf,ba:0,bc:0,bn:0:1:0,na:0:00,ba:0,bn:36001:1:0" % cfg)
+        emit("c19_history %s ~" % cfg)
+    for _ in range(ctx.n(500, 20000)):
+        emit(gen_history(rng))
 
     # ---- 3. murmur3: every tail length, seeds of every width and sign
     seeds = [0, 1, M32, 2 ** 32, 2 ** 32 + 1, 2 ** 64 + 1, -1, -(2 ** 32) - 5, 0xFBA4C795, 0x9747B28C, 2 ** 31, 2 ** 31 - 1]
